@@ -1,5 +1,15 @@
 package rules
 
+import (
+	"go/constant"
+	"go/token"
+	"go/types"
+
+	"golang.org/x/tools/go/ssa"
+
+	"verifchecker/internal/engine"
+)
+
 func init() { register("C12", c12) }
 
 func c12(c *Ctx) {
@@ -7,5 +17,61 @@ func c12(c *Ctx) {
 	c.recursionDepthPaired("R12.6")
 	c.eofTermination("R12.3", "rfc5322")
 	c.listWriterDiscipline()
+	c.noNegativeIndex("R12.8")
 	c.boundedRecursion("R12.1", []string{"rfc5322", "rfc822", "imap", "rfcparser"}, []string{"rfc5322", "rfc822", "imap"}, 5)
+}
+
+// noNegativeIndex (R12.8): an index computed by subtraction is proved non-negative.
+func (c *Ctx) noNegativeIndex(rule string) {
+	P, R := c.P, c.R
+	R.Explain(rule, "no index below zero: in the packages that parse message and command bytes (rfc822, rfc5322, rfcparser, imap, imap/command) every element access x[i-k] (slice, array or string; k a positive constant) is proved to have i-k >= 0 from the branch conditions that dominate it (linear-inequality entailment; `i >= 1 && x[i-1]` counts through the short-circuit edge).  An unguarded x[i-1] panics for the input on which i is 0 - an empty line, a terminator at the very start - and a panic while a message is parsed takes the whole process down.  Sites whose guard lives in an invariant the prover cannot see are tabled with the reason.")
+	tabled := map[string]string{
+		"rfc822.(*ByteScanner).getPreviousLineBreakIndex": "offset = s.progress + index with index >= 0 returned by bytes.Index and s.progress >= 0 (only ever advanced); the s.progress == offset case returns first, so offset >= s.progress+1 >= 1; the second access is guarded by offset-s.progress >= 2",
+	}
+	R.Table(rule+" tabled sites (guard is an invariant of the caller)", "rfc822.(*ByteScanner).getPreviousLineBreakIndex: "+tabled["rfc822.(*ByteScanner).getPreviousLineBreakIndex"])
+	n, nt := 0, 0
+	for _, f := range c.funcsInPkg("rfc822", "rfc5322", "rfcparser", "imap", "imap/command") {
+		for _, b := range f.Blocks {
+			for _, in := range b.Instrs {
+				var idx ssa.Value
+				switch t := in.(type) {
+				case *ssa.IndexAddr:
+					idx = t.Index
+				case *ssa.Index:
+					idx = t.Index
+				case *ssa.Lookup:
+					if _, isMap := t.X.Type().Underlying().(*types.Map); isMap {
+						continue
+					}
+					idx = t.Index
+				default:
+					continue
+				}
+				for {
+					if cv, ok := idx.(*ssa.Convert); ok {
+						idx = cv.X
+						continue
+					}
+					break
+				}
+				bo, ok := idx.(*ssa.BinOp)
+				if !ok || bo.Op != token.SUB {
+					continue
+				}
+				k, isK := bo.Y.(*ssa.Const)
+				if !isK || k.Value == nil || k.Value.Kind() != constant.Int || k.Int64() <= 0 {
+					continue
+				}
+				if _, isTabled := tabled[c.name(f)]; isTabled {
+					nt++
+					continue
+				}
+				n++
+				ok2 := engine.EntailedAt(f, b, idx, 0, false, P.IsOwn)
+				R.Check(ok2, rule, c.name(f)+"|index "+valExpr(bo.X, 0)+"-"+k.Value.ExactString(), P.Pos(in.Pos()), "index proved >= 0", "the element access at index "+valExpr(bo.X, 0)+"-"+k.Value.ExactString()+" is not dominated by a condition that makes the index non-negative: the input on which "+valExpr(bo.X, 0)+" is smaller than "+k.Value.ExactString()+" panics (index out of range) while parsing")
+			}
+		}
+	}
+	R.Stats[rule+" tabled subtractive index sites"] = nt
+	R.Min(rule, "subtractive index expressions judged", n, 2)
 }
